@@ -552,11 +552,27 @@ def stripTopL : List Tok → List Tok
   | t :: ts => t.stripTop ++ stripTopL ts
 end
 
+mutual
+/-- how many strings `_asStringList()` yields for an item (a nested result contributes one per leaf, maybe none) -/
+def Tok.cnt : Tok → Nat
+  | .s _ => 1
+  | .n _ => 1
+  | .g xs => cntL xs
+  | .nm _ _ _ xs => cntL xs
+  | .hid _ => 0
+def cntL : List Tok → Nat
+  | [] => 0
+  | t :: ts => t.cnt + cntL ts
+end
+
+/-- the loop of `_asStringList(sep)` (results.py:501-510): `if out and sep: out.append(sep)` — the separator goes in
+    front of an item only when something was emitted before (an empty nested result at the front emits nothing) -/
+def combineGo (join : List Char) : Bool → List Tok → List Char
+  | _, [] => []
+  | started, t :: ts => (if started then join else []) ++ t.strs ++ combineGo join (started || t.cnt > 0) ts
+
 /-- `"".join(tokenlist._asStringList(joinString))` (Combine.postParse 5872-5877) -/
-def combineStr (join : List Char) : List Tok → List Char
-  | [] => []
-  | [t] => t.strs
-  | t :: ts => t.strs ++ join ++ combineStr join ts
+def combineStr (join : List Char) (ts : List Tok) : List Char := combineGo join false ts
 
 /-! ### parse actions (library shared with harness/actions.py) -/
 
